@@ -117,7 +117,16 @@ let verdict id op args impl =
      | ICrash w -> Printf.sprintf "(%s crash %s (model %s))" id w (if m then "1" else "0"))
   | _ ->
     let r = run_op op args in
+    (* closure (C11) does not need a specification: on valid inputs a returned layout must itself be valid, also for
+       the operations / types (unions, ...) the value-level specification leaves out *)
+    let result_invalid = (match impl with
+        | IOk d ->
+          let bare_chars = (match d with L [A "par"; A ("char" | "byte"); _; L (A "np" :: _)] -> true | _ -> false) in
+          is_layout_dump d && not bare_chars && not (try valid_b (content_of_sx d) with Bad _ -> false)
+        | _ -> false) in
     if not r.inputs_valid then Printf.sprintf "(%s skip invalid-input)" id
+    else if (r.unsupported <> "" || r.spec = OBad "fuel") && result_invalid then
+      Printf.sprintf "(%s viol closure (impl invalid-result) (spec %s))" id (if r.unsupported <> "" then "unsupported-" ^ r.unsupported else "unspecified")
     else if r.unsupported <> "" then Printf.sprintf "(%s skip unsupported-%s)" id r.unsupported
     else if r.spec = OBad "fuel" then Printf.sprintf "(%s skip unspecified)" id
     else begin
